@@ -624,6 +624,9 @@ class List(list, base.Symbolic, pg_typing.CustomTyping):
       update = self._set_item_without_permission_check(index, value)
       if flags.is_change_notification_enabled() and update:
         self._notify_field_updates([update])
+      else:
+        # E.g. `l[i] = MISSING_VALUE` (a deletion) leaves a placeholder.
+        self._sync_children()
     else:
       raise TypeError(
           f'list assignment index must be an integer. Encountered {index!r}.')
